@@ -116,14 +116,22 @@ def collect_pickles(path, limit=60):
     return out
 
 
+SIBLINGS = {'builtins': ['len', 'sum', 'abs', 'id', 'getattr'], '__builtin__': ['len', 'sum', 'getattr'], 'collections': ['Counter', 'namedtuple', 'deque'],
+            'copyreg': ['constructor', 'pickle'], 'copy_reg': ['constructor', 'pickle'], 'CamouflageInfo': ['namedtuple'], 'PlayerModeDef': ['unicodize']}
+
+
 def neighbours(allow):
     """payloads that only *locate* a global (GLOBAL / STACK_GLOBAL + STOP, nothing is called) whose name is a near miss of an allow-listed
     one: dotted attribute paths below it (resolved by protocol >= 4), prefixes / suffixes / case changes, swapped or nested module names"""
     out = []
     seen = set()
+    # the allow-listed globals themselves come first: whatever a successful lookup leaves behind (caches, imported modules) is in place
+    # when the near misses and the harmless siblings of the same modules are tried, all in the same process
     for m, n in allow:
-        names = [(m, n), (m, n + '.__class__'), (m, n + '.__init__'), (m, n + '.__doc__'), (m, n + '.__name__.__class__'), (m, n + 's'), (m, n[:-1]), (m, n.upper()),
-                 (m, '_' + n), (m, n + ' '), (m + '.abc', n), (m.split('.')[0], m.split('.')[-1] + '.' + n), (n, m), (m, ''), (m + ' ', n), (m, n + '\\x00')]
+        out.append(b'c' + m.encode('latin1', 'replace') + b'\n' + n.encode('latin1', 'replace') + b'\n.')
+    for m, n in allow:
+        names = [(m, x) for x in SIBLINGS.get(m, [])] + [(m, n + '.__class__'), (m, n + '.__init__'), (m, n + '.__doc__'), (m, n + '.__name__.__class__'), (m, n + 's'), (m, n[:-1]), (m, n.upper()),
+                 (m, '_' + n), (m, n + ' '), (m, n), (m + '.abc', n), (m.split('.')[0], m.split('.')[-1] + '.' + n), (n, m), (m, ''), (m + ' ', n), (m, n + '\\x00')]
         for mm, nn in names:
             if (mm, nn) in seen or '\n' in mm + nn:
                 continue
@@ -184,6 +192,10 @@ def part_vm(chk, drv, recs):
                 for ev in r['events']:
                     if tuple(ev) not in ALLOWED_CLASSES:
                         chk.report('the shipped unpickler locates %s.%s for payload %s' % (ev[0], ev[1], b.hex()[:120]), {'kind': 'safe-loads', 'payload': b.hex(), 'class': ev})
+                if r.get('result') and tuple(r['result']) not in ALLOWED_CLASSES:
+                    chk.report('the shipped unpickler returns the global %s.%s for payload %r (after the allow-listed globals were resolved in the same process)' % (
+                        r['result'][0], r['result'][1], b[:60]), {'kind': 'safe-loads-result', 'payload': b.hex(), 'result': r['result'],
+                                                                 'primed_with': [list(g) for g in shipped]})
 
 
 def hostile_battle(game, version, seed, method):
